@@ -170,6 +170,11 @@ def machine(ctx, tier, deadline):
     return make_machine(BatchHarness, init_strategy(tier), RULES, ctx, deadline)
 
 
+def preimport():
+    from ..eda import data_dir
+    data_dir()
+
+
 SUBS = [
     Sub("episodes", execute, strategy=lambda tier: episode_cases(tier, ALL_ENVS),
         budget={"quick": 4000, "thorough": 80000}, shards=16),
